@@ -21,6 +21,7 @@ mutual
     | "attr" => pure (.attr (← parseExpr a[1]!) (← jStr a[2]!))
     | "subscr" => pure (.subscr (← parseExpr a[1]!) (← parseExpr a[2]!))
     | "call" => pure (.call (← jBool a[1]!) (← parseExpr a[2]!) (← parseArgs (← jArr a[3]!).toList))
+    | "super" => pure (.superAttr (← jBool a[1]!) (← parseExpr a[2]!) (← parseExpr a[3]!) (← jStr a[4]!))
     | k => throw s!"expr kind {k}"
   partial def parseArgs (js : List Json) : Except String Args :=
     match js with
